@@ -22,6 +22,17 @@ Proof.
   specialize (IH H). lia.
 Qed.
 
+(* induction over the dependency tree *)
+Lemma chart_tree_ind (P : chart -> Prop) :
+  (forall c, (forall d, In d (c_deps c) -> P d) -> P c) -> forall c, P c.
+Proof.
+  intros H. assert (forall n c, (depth c <= n)%nat -> P c) as Hn.
+  { induction n as [|n IH]; intros c Hd.
+    - destruct c; simpl in Hd; lia.
+    - apply H. intros d Hin. apply IH. pose proof (depth_dep c d Hin). lia. }
+  intros c. now apply (Hn (depth c)).
+Qed.
+
 (* names usable as a subchart directory: loaded, not skipped, not taken for an archive *)
 Definition dep_name_ok (n : string) : Prop :=
   first_char_in n [underscore; dot] = false /\ String.eqb (path_ext n) ".tgz" = false.
@@ -346,5 +357,131 @@ Section Rec.
       + intros d Hin. apply IH.
         * pose proof (depth_dep c d Hin). lia.
         * rewrite Forall_forall in Hdeps. now apply Hdeps.
+  Qed.
+
+  (* ---------- the reloaded tree has the same content ---------- *)
+  Inductive same_tree : chart -> chart -> Prop :=
+  | SameTree a b :
+      c_meta a = c_meta b -> c_lock a = c_lock b -> raw_values a = raw_values b ->
+      c_values a = c_values b -> c_schema a = c_schema b ->
+      c_templates a = c_templates b -> c_files a = c_files b ->
+      Forall2 same_tree (c_deps a) (c_deps b) ->
+      same_tree a b.
+
+  Lemma filter_values_nested deps :
+    filter is_values_file (map mk2 (dep_files deps)) = [].
+  Proof.
+    unfold dep_files. induction deps as [|d deps IH]; cbn [flat_map map]; auto.
+    rewrite map_app, filter_app, IH, app_nil_r.
+    induction (tree_pairs d) as [|p l IHl]; cbn [map filter]; auto.
+  Qed.
+
+  Lemma raw_values_canon c : WF (own c) -> raw_values (canon c) = raw_values c.
+  Proof.
+    intros Hwf. rewrite canon_eq. unfold raw_values at 1. cbn [c_raw].
+    rewrite tree_pairs_eq, map_app, filter_app, filter_values_nested, app_nil_r.
+    change (map mk2 (SP c)) with (LOADED (own c)).
+    exact (raw_values_loaded md_enc lock_enc json_valid sanitize is_semver rest_valid parse_values (own c) Hwf).
+  Qed.
+
+  Lemma same_tree_canon : forall n c, (depth c <= n)%nat -> wf_tree c -> same_tree c (canon c).
+  Proof.
+    induction n as [|n IH]; intros c Hd Hwf.
+    - destruct c; simpl in Hd; lia.
+    - inversion Hwf as [c' Hown _ _ Hdeps]; subst.
+      pose proof (raw_values_canon c Hown) as Hrv.
+      rewrite canon_eq in *. constructor; cbn [c_meta c_lock c_values c_schema c_templates c_files c_deps]; auto.
+      assert (forall d, In d (c_deps c) -> same_tree d (canon d)) as Hall.
+      { intros d Hin. apply IH; [pose proof (depth_dep c d Hin); lia|].
+        rewrite Forall_forall in Hdeps. now apply Hdeps. }
+      clear -Hall. induction (c_deps c) as [|d l IHl]; cbn [map]; constructor.
+      + apply Hall. now left.
+      + apply IHl. intros x Hx. apply Hall. now right.
+  Qed.
+
+  (* ---------- names and contents of the whole tree ---------- *)
+  Lemma wf_fname_nest dn fn :
+    wf_cname dn = true -> wf_fname fn = true -> wf_fname ("charts/" ++ dn ++ "/" ++ fn) = true.
+  Proof.
+    intros Hd Hf. destruct (wf_cname_props dn Hd) as (Hg & Hns & Hnb & _).
+    unfold wf_fname in *. rewrite !andb_true_iff, !negb_true_iff in *.
+    destruct Hf as [[[Hf1 Hf2] Hf3] Hf4]. repeat split; try reflexivity.
+    - change ("charts/" ++ dn ++ "/" ++ fn) with ("charts" ++ String slash (dn ++ String slash fn)).
+      rewrite split_on_sep by reflexivity. rewrite split_on_sep by assumption.
+      cbn [forallb]. rewrite Hf1. apply good_compb_iff in Hg. now rewrite Hg.
+    - change ("charts/" ++ dn ++ "/" ++ fn) with ("charts/" ++ (dn ++ ("/" ++ fn))).
+      rewrite !contains_char_app, Hnb, Hf2. reflexivity.
+  Qed.
+
+  Lemma own_names_ok c : WF (own c) -> Forall (fun p => wf_fname (fst p) = true) (SP c).
+  Proof.
+    intros [_ _ _ _ _ Htpl Hfls _]. cbn [own c_templates c_files] in *.
+    unfold saved_pairs, lock_seg, schema_seg. repeat (apply Forall_app; split).
+    - repeat constructor.
+    - destruct (String.eqb (m_api (c_meta c)) "v2"); [|constructor]. destruct (c_lock c); repeat constructor.
+    - apply Forall_forall. intros p Hp. apply in_map_iff in Hp as (f & <- & _). reflexivity.
+    - destruct (c_schema c); repeat constructor.
+    - apply Forall_forall. intros p Hp. apply in_map_iff in Hp as (f & <- & Hf).
+      rewrite forallb_forall in Htpl. now destruct (wf_template_props f (Htpl f Hf)).
+    - apply Forall_forall. intros p Hp. apply in_map_iff in Hp as (f & <- & Hf).
+      rewrite forallb_forall in Hfls. now destruct (wf_file_props f (Hfls f Hf)).
+  Qed.
+
+  Lemma wf_tree_cname c : wf_tree c -> wf_cname (dname c) = true.
+  Proof. intros H. inversion H as [c' Hwf _ _ _]; subst. now destruct Hwf. Qed.
+
+  Lemma tree_names_ok : forall c, wf_tree c -> Forall (fun p => wf_fname (fst p) = true) (tree_pairs c).
+  Proof.
+    apply (chart_tree_ind (fun c => wf_tree c -> Forall (fun p => wf_fname (fst p) = true) (tree_pairs c))).
+    intros c IH Hwf. inversion Hwf as [c' Hown _ _ Hdeps]; subst.
+    rewrite tree_pairs_eq. apply Forall_app. split; [now apply own_names_ok|].
+    unfold dep_files. apply Forall_forall. intros p Hp. apply in_flat_map in Hp as (d & Hd & Hp).
+    apply in_map_iff in Hp as (q & <- & Hq). rewrite Forall_forall in Hdeps.
+    unfold nest. cbn [fst]. apply wf_fname_nest.
+    - apply wf_tree_cname. now apply Hdeps.
+    - specialize (IH d Hd (Hdeps d Hd)). rewrite Forall_forall in IH. now apply IH.
+  Qed.
+
+  Lemma tree_nobom : forall c, nobom_tree c -> Forall (fun p => has_bom (snd p) = false) (tree_pairs c).
+  Proof.
+    apply (chart_tree_ind (fun c => nobom_tree c -> Forall (fun p => has_bom (snd p) = false) (tree_pairs c))).
+    intros c IH Hnb. inversion Hnb as [c' Hown Hdeps]; subst.
+    rewrite tree_pairs_eq. apply Forall_app. split.
+    - exact (saved_nobom md_enc lock_enc md_nobom lock_nobom (own c) Hown).
+    - unfold dep_files. apply Forall_forall. intros p Hp. apply in_flat_map in Hp as (d & Hd & Hp).
+      apply in_map_iff in Hp as (q & <- & Hq). rewrite Forall_forall in Hdeps.
+      specialize (IH d Hd (Hdeps d Hd)). rewrite Forall_forall in IH. cbn [nest snd]. now apply IH.
+  Qed.
+
+  (* LoadArchiveFiles on the entries of a whole tree *)
+  Definition tree_entries (c : chart) : list tentry :=
+    map (fun p => tar_entry (dname c ++ "/" ++ fst p) (snd p)) (tree_pairs c).
+
+  Lemma archive_of_tree c :
+    wf_tree c -> nobom_tree c -> fits maxt maxf (tree_entries c) ->
+    load_archive_files maxt maxf (mkTS false (tree_entries c) false) = inr (map mk2 (tree_pairs c)).
+  Proof.
+    intros Hwf Hnb [Hf1 Hf2].
+    pose proof (tree_names_ok c Hwf) as Hn. pose proof (tree_nobom c Hnb) as Hb.
+    pose proof (wf_tree_cname c Hwf) as Hcn.
+    unfold load_archive_files, load_archive_trace. cbn [ts_gzerr ts_entries ts_err].
+    set (L := map (fun p => (dname c ++ "/" ++ fst p, fst p, snd p)) (tree_pairs c)).
+    assert (tree_entries c = map (fun x => let '(name, fn, body) := x in tar_entry name body) L) as Hes
+      by (unfold tree_entries, L; rewrite map_map; reflexivity).
+    pose proof (load_go_saved maxf L maxt) as HL. rewrite <- Hes in HL.
+    assert (fst (load_go maxf maxt (tree_entries c)) = inr (map mk2 (tree_pairs c))) as HL'.
+    { rewrite HL.
+      - unfold L. rewrite map_map. f_equal. apply map_ext_in. intros p Hp. unfold mk2.
+        rewrite Forall_forall in Hb. now rewrite trim_bom_nobom by (apply Hb; assumption).
+      - unfold L. apply Forall_forall. intros [[name fn] body] Hx. apply in_map_iff in Hx as (p & Hx & Hin).
+        inversion Hx; subst. split.
+        + apply saved_name; auto. rewrite Forall_forall in Hn. now apply Hn.
+        + rewrite Forall_forall in Hf1.
+          change (slen (snd p)) with (te_size (tar_entry (dname c ++ "/" ++ fst p) (snd p))).
+          apply Hf1. unfold tree_entries. apply in_map_iff. exists p. split; [reflexivity|assumption].
+      - assert (map te_size (tree_entries c) = map (fun x : string * string * string => slen (snd x)) L) as <-; [|exact Hf2].
+        unfold tree_entries, L. rewrite !map_map. reflexivity. }
+    destruct (load_go maxf maxt (tree_entries c)) as [res rs]. simpl in HL'. subst res. simpl.
+    pose proof (tree_pairs_nonempty c). destruct (tree_pairs c); [congruence|reflexivity].
   Qed.
 End Rec.
